@@ -95,7 +95,7 @@ Lemma evs_at_ok ped repl lim fuel : evs_ok (evs_at ped repl lim fuel).
 Proof.
   induction fuel as [|f IH]; cbn [evs_at].
   - unfold evs_ok, evs_zero. cbn [ev_eval ev_resolve ev_case_equals ev_case_range ev_run_block ev_new_var ev_new_array ev_bind_args ev_call_procedure ev_call_function].
-    repeat match goal with |- _ /\ _ => split end; intros; apply tr_failm.
+    repeat match goal with |- _ /\ _ => split end; intros; (apply tr_failm; exact I).
   - destruct IH as [He [Hr [Hce [Hcr [Hb [Hv [Ha [Hba [Hp Hf]]]]]]]]].
     unfold evs_ok, evs_step. cbn [ev_eval ev_resolve ev_case_equals ev_case_range ev_run_block ev_new_var ev_new_array ev_bind_args ev_call_procedure ev_call_function].
     repeat match goal with |- _ /\ _ => split end; intros.
@@ -282,4 +282,21 @@ Proof.
   intros HI E Ev. destruct (run_block_keeps_constants ped repl lim fuel bl c s HI) as [HI' _]. split; [eapply (i_recval _ HI'); eauto|]. split.
   - rewrite <- (i_kind _ HI' id cl E). rewrite Ev. reflexivity.
   - apply (i_name _ HI' id cl E). rewrite Ev. reflexivity.
+Qed.
+
+(* ---- no type confusion: whatever a block does, it never ends in the abort that stands for "a variable's cell holds an object of
+   another class than its declared type says" (in the C++: a static_cast to the wrong class).  The abort sites are in assignment to
+   enumerated / pointer / record variables, FOR, pointer assignment, dereference and field access; each is excluded by the kind
+   clause of the heap invariant. ---- *)
+Theorem run_block_never_finds_a_cell_of_the_wrong_class ped repl lim fuel bl c s : Inv s ->
+  fst (run_block ped repl lim fuel bl c s) <> Fail (FCrash "cell payload disagrees with its type").
+Proof.
+  intros HI E. destruct (evs_at_ok ped repl lim fuel) as [_ [_ [_ [_ [Hb _]]]]].
+  destruct (Hb (fun _ => True) bl c stable_true s HI I) as [_ [_ O]]. unfold run_block in E. rewrite E in O. cbn in O. discriminate O.
+Qed.
+Theorem eval_never_finds_a_cell_of_the_wrong_class ped repl lim fuel n c s : Inv s ->
+  fst (ev_eval (evs_at ped repl lim fuel) n c s) <> Fail (FCrash "cell payload disagrees with its type").
+Proof.
+  intros HI E. destruct (evs_at_ok ped repl lim fuel) as [He _].
+  destruct (He (fun _ => True) n c stable_true s HI I) as [_ [_ O]]. rewrite E in O. cbn in O. discriminate O.
 Qed.
